@@ -1,4 +1,5 @@
 import SpecVerif.Proofs.Lemmas.DFT
+import SpecVerif.Proofs.Lemmas.WienerKhinchin
 import SpecVerif.Model.Periodogram
 import Mathlib.Algebra.BigOperators.Field
 /-
@@ -67,6 +68,56 @@ theorem periodogram_parseval {ω : K} {nfft : ℕ} (hn : 0 < nfft) (hω : IsPrim
   unfold wdft
   rw [parseval_fun hω hN hstar (fun j => nth x j * nth w j)]
   rw [mul_div_assoc, mul_div_cancel_left₀ _ hnK]
+
+/-- **Wiener–Khinchin clause**: autocorrelation of `N ≥ 1` samples, rectangular lag window (`w_i = 1`
+for `i < N-1`), `lag = N-1`, biased normalisation and `NFFT ≥ 2N-1`: every bin `k < NFFT` of the model
+of `CORRELOGRAMPSD` equals the same bin of the model of `speriodogram` with the all-ones data window
+(`|Σ_j x_j ω^{jk}|²/N` by `periodogram_eq_def`).  `ω` is any `NFFT`-th root of unity with
+`star ω = ω⁻¹`; the `coeff`-only argument `rms2` is arbitrary.  `CharZero K` makes the divisions by `N`
+and by `2` (in `rePart`) meaningful; only `(2 : K) ≠ 0` is used by the proof.
+The bound `2N-1 ≤ NFFT` is the no-wrap-around condition: the positive lags `1..N-1` and the negative
+lags stored at `NFFT-(N-1)..NFFT-1` must not collide (see the counter-example below). -/
+theorem correlogram_eq_periodogram [CharZero K] {ω : K} {nfft : ℕ} (x w ones : List K) (rms2 : K)
+    (hN : 1 ≤ x.length) (hnfft : 2 * x.length - 1 ≤ nfft) (hω : ω ^ nfft = 1)
+    (hstar : star ω = ω⁻¹) (hw : ∀ i, i < x.length - 1 → nth w i = 1)
+    (hones : ∀ j, j < x.length → nth ones j = 1) (k : ℕ) (hk : k < nfft) :
+    nth (correlogram (twiddles ω nfft) x x w (x.length - 1) nfft .biased rms2) k
+      = nth (speriodogram (twiddles ω nfft) x ones nfft false) k := by
+  have hn : 0 < nfft := by omega
+  rw [correlogram_bin_eq x w rms2 hN hnfft hω hstar hw two_ne_zero k hk,
+    periodogram_eq_def hn hω x ones (by omega) false k (by simpa using hk)]
+  have : wdft ω x ones k = ∑ j ∈ range x.length, nth x j * ω ^ (j * k) := by
+    unfold wdft
+    apply Finset.sum_congr rfl
+    intro j hj
+    rw [hones j (mem_range.mp hj), mul_one]
+  rw [this]
+
+/-- the same with the rectangular windows written out (`N-1` ones for the lags, `N` ones for the data) -/
+theorem correlogram_eq_periodogram_rect [CharZero K] {ω : K} {nfft : ℕ} (x : List K) (rms2 : K)
+    (hN : 1 ≤ x.length) (hnfft : 2 * x.length - 1 ≤ nfft) (hω : ω ^ nfft = 1)
+    (hstar : star ω = ω⁻¹) (k : ℕ) (hk : k < nfft) :
+    nth (correlogram (twiddles ω nfft) x x (vec (x.length - 1) fun _ => 1) (x.length - 1) nfft
+        .biased rms2) k
+      = nth (speriodogram (twiddles ω nfft) x (vec x.length fun _ => 1) nfft false) k :=
+  correlogram_eq_periodogram x _ _ rms2 hN hnfft hω hstar
+    (fun i hi => by rw [nth_vec, if_pos hi]) (fun j hj => by rw [nth_vec, if_pos hj]) k hk
+
+/-- non-vacuity: `K = ℚ` (trivial involution), `ω = -1`, `NFFT = 4 ≥ 2N-1 = 3`, `x = [3, 2]`, bin `1`:
+both sides are `|3 - 2|²/2`. -/
+example : nth (correlogram (twiddles (-1 : ℚ) 4) [3, 2] [3, 2] [1] 1 4 .biased 0) 1
+    = nth (speriodogram (twiddles (-1 : ℚ) 4) [3, 2] [1, 1] 4 false) 1 :=
+  correlogram_eq_periodogram (ω := -1) [3, 2] [1] [1, 1] 0 (by simp) (by simp) (by norm_num)
+    (by simp) (by intro i hi; have : i = 0 := by simpa using hi
+                  subst this; rfl)
+    (by intro j hj; simp at hj; interval_cases j <;> rfl) 1 (by norm_num)
+
+/-- the bound `2N-1 ≤ NFFT` cannot be dropped: with `N = 2`, `NFFT = 2`, `ω = -1`, `x = [1, 1]` the
+negative lag `-1` is written at index `NFFT-1 = 1` over the positive lag `1` (wrap-around) and bin `0`
+is `3/2` instead of `|1+1|²/2 = 2`. -/
+example : nth (correlogram (twiddles (-1 : ℚ) 2) [1, 1] [1, 1] [1] 1 2 .biased 0) 0
+    ≠ nth (speriodogram (twiddles (-1 : ℚ) 2) [1, 1] [1, 1] 2 false) 0 := by
+  decide +kernel
 
 /-- non-vacuity: the hypotheses are met by `K = ℚ`-like fields only trivially (`NFFT ≤ 2`); the
 instance that matters is `ℂ` with `ω = e^{-2πi/NFFT}`; here the degenerate root `ω = 1`, `NFFT = 1`
